@@ -4690,11 +4690,12 @@ py_statements = [
     # XXX - must release after copying result.
     dict(
         name="py_vector_result_list",
+        c_helper="to_PyList_vector_{cxx_T}",
         declare=[
             "PyObject * {py_var} = {nullptr};",
         ],
         post_call=[
-            "{py_var} = SHROUD_to_PyList_vector_{cxx_T}\t({cxx_var});",
+            "{py_var} = {hnamefunc0}\t({cxx_var});",
             "if ({py_var} == {nullptr}) goto fail;",
         ],
         object_created=True,
